@@ -1,0 +1,6 @@
+//go:build !verif
+
+package state
+
+// verifOrderTasks is a no-op unless built with the "verif" tag (verification hooks).
+func verifOrderTasks(tasks []*Task) {}
